@@ -35,6 +35,7 @@ public:
             for (size_t i = 1;; ++i) {
                 expected = root_lock_.load(std::memory_order_acquire);
                 if (expected) {
+                    YAKUSHIMA_VERIF_POINT(SPIN_ROOT, this);
                     if (i >= 10) { break; }
                     _mm_pause();
                     continue;
@@ -43,6 +44,7 @@ public:
                 if (root_lock_.compare_exchange_weak(expected, desired,
                                                 std::memory_order_acq_rel,
                                                 std::memory_order_acquire)) {
+                    YAKUSHIMA_VERIF_POINT(ROOT_ACQ, this);
                     return;
                 }
             }
@@ -51,6 +53,7 @@ public:
     }
 
     void root_unlock() {
+        YAKUSHIMA_VERIF_POINT(ROOT_REL, this);
         root_lock_.store(false, std::memory_order_release);
     }
 
